@@ -1,5 +1,7 @@
 (* C15 -- Logout is acknowledged once; Stop ends on the peer's answer or the deadline. *)
-From SF Require Import Bytes Values Wire Parse Session Session_proofs Session_clean Session_handlers.
+From Coq Require Import List.
+From SF Require Import Bytes Values Wire Parse Session Session_proofs Session_clean Session_handlers
+  Session_c05 Session_hist Session_c10 Session_c15.
 
 (* logged on + the peer's Logout: the request event, one Logout through Session.send, timers
    stopped, and the session is back to waiting for a Logon (not logged on) *)
@@ -39,3 +41,41 @@ Theorem C15_deadline_cancels :
   forall cfg s, s_cancelled (fst (step cfg s CloseDeadline)) = true.
 Proof. exact close_deadline_cancels. Qed.
 Print Assumptions C15_deadline_cancels.
+
+(* ---- over whole histories ----
+   The application stops the session at some point; whatever happens afterwards (inbound messages
+   of any content, sends, registrations of pass-through handlers, timer expiries, the close
+   deadline), Stop's handler for the logout event stays registered ... *)
+Theorem C15_stop_registered_forever :
+  forall cfg s s1 o1 ops s' os,
+    step cfg s AppStop = (s1, o1) -> Forall op_clean ops -> run_ops cfg s1 ops = (s', os) ->
+    stop_registered s'.
+Proof. exact stop_registered_forever. Qed.
+Print Assumptions C15_stop_registered_forever.
+
+(* ... so that, if the session is still waiting for the answer when the peer's Logout arrives, that
+   message is answered by nothing (no second Logout), signals the logout event, cancels the session
+   context and leaves the session not logged on -- provided the application's own handlers for that
+   event let the chain continue *)
+Theorem C15_stop_history :
+  forall cfg s s1 o1 ops s2 os d lm,
+    step cfg s AppStop = (s1, o1) -> Forall op_clean ops -> run_ops cfg s1 ops = (s2, os) ->
+    parse_as msgtype_Logout tpl_Logout d = Ok lm -> s_state s2 = WaitingLogoutAnswer ->
+    Forall (fun h => match h with EApp _ c => c = true | _ => True end) (ev_get (s_ev s2) EvLogout) ->
+    exists s' o, run_in_handler cfg s2 HLogout d = (s', o, true)
+                 /\ s_cancelled s' = true /\ wires o = nil /\ In (OEvent EvLogout) o
+                 /\ is_logged s' = false.
+Proof. exact Session_c15.C15_stop_history. Qed.
+Print Assumptions C15_stop_history.
+
+(* the premises are satisfiable: a logged-on session is stopped, an application message is sent and
+   a handler registered, the peer's Logout arrives: the context is cancelled by that message *)
+Theorem C15_stop_history_nonvacuous :
+  is_logged ex15_before = true
+  /\ Forall op_clean (AppSend (AppTestRequest (120%N :: nil)) :: RegEv EvLogout 4 true :: nil)
+  /\ s_state (fst ex15_later) = WaitingLogoutAnswer /\ s_cancelled (fst ex15_later) = false
+  /\ (exists lm, parse_as msgtype_Logout tpl_Logout ex15_logout = Ok lm)
+  /\ Forall (fun h => match h with EApp _ c => c = true | _ => True end) (ev_get (s_ev (fst ex15_later)) EvLogout)
+  /\ s_cancelled (fst (fst (run_in_handler ex5_cfg (fst ex15_later) HLogout ex15_logout))) = true.
+Proof. exact stop_example. Qed.
+Print Assumptions C15_stop_history_nonvacuous.
